@@ -329,9 +329,13 @@ func runProve(po proveOpts) (res proveResult) {
 		{
 			feas := map[string]bool{}
 			seen := map[string]bool{}
+			succ := map[string]bool{}
 			for _, o := range v.obligs {
 				if o.Class == "vacuity-path" {
 					seen[o.Pos] = true
+					if !o.ErrRet {
+						succ[o.Pos] = true
+					}
 					if o.Verdict != "unsat" {
 						feas[o.Pos] = true
 					}
@@ -341,6 +345,13 @@ func runProve(po proveOpts) (res proveResult) {
 			for p := range seen {
 				if !feas[p] {
 					deadRets = append(deadRets, p)
+					if succ[p] {
+						// a non-error return none of whose paths is feasible: the contract (or the
+						// model) contradicts itself on the way there, and whatever was proved
+						// about that path is vacuous
+						vacuityBad++
+						lines = append(lines, fmt.Sprintf("ERROR vacuous verification: no feasible path through the non-error return statement at %s of %s", p, v.fnName))
+					}
 				}
 			}
 			sort.Strings(deadRets)
